@@ -202,13 +202,15 @@ def circuit_cases(tier):
             for j in range(n):
                 yield {'api': 'ctor', 'n': n, 'fault': 'ground-dup-id', 'ground': g1, 'j': j}
             yield {'api': 'ctor', 'n': n, 'fault': None, 'ground': g1}
-            yield {'api': 'ctor', 'n': n, 'fault': 'dangling-ground', 'ground': g1}
+            for analysis in ('dc', 'harmonic', 'off-harmonic'):
+                yield {'api': 'ctor', 'n': n, 'fault': 'dangling-ground', 'ground': g1, 'analysis': analysis}
             for g2 in range(g1, n + 1):
                 yield {'api': 'ctor', 'n': n, 'fault': 'second-ground', 'ground': g1, 'ground2': g2}
         for pos in range(n):
             yield {'api': 'loader', 'n': n, 'fault': 'unknown-type', 'pos': pos}
             yield {'api': 'loader', 'n': n, 'fault': 'negative', 'pos': pos}
-            yield {'api': 'loader', 'n': n, 'fault': 'unknown-waveform', 'pos': pos}
+            for analysis in ('dc', 'harmonic', 'off-harmonic', 'second-harmonic'):
+                yield {'api': 'loader', 'n': n, 'fault': 'unknown-waveform', 'pos': pos, 'analysis': analysis}
             for fld in ('id', 'type', 'value', 'nodes', 'value-key'):
                 yield {'api': 'loader', 'n': n, 'fault': 'missing', 'pos': pos, 'field': fld}
 
@@ -259,9 +261,10 @@ def check_circuit_fault(case, r: R):
         else:
             c = Circuit(components())
         if fault in ('dangling-ground', 'unknown-waveform'):
-            DCSolution(c)                      # rejected at the latest when analysed
+            # rejected at the latest when analysed - at whatever frequency the first analysis happens to be
             from CircuitCalculator.Circuit.solution import ComplexSolution
-            ComplexSolution(c, w=10.0)
+            {'dc': lambda: DCSolution(c), 'harmonic': lambda: ComplexSolution(c, w=10.0), 'off-harmonic': lambda: ComplexSolution(c, w=13.7),
+             'second-harmonic': lambda: ComplexSolution(c, w=20.0)}[case.get('analysis', 'dc')]()
         return c
 
     if fault is None:
